@@ -130,6 +130,18 @@ def run_impl_batch(jr, case):
     for m in case['order']:
         it = by_member.get(m)
         result, _tok = result_for(jr, m, m in case.get('errs', ()))
+        if m in case.get('unenc', ()):
+            # a first attempt with a result that cannot be encoded: must raise ProtocolError,
+            # emit nothing and leave the batch as it was (C03's repair of F9 relies on it)
+            try:
+                leaked = it.send_result({1, 2})
+                rec['exc'] = 'UnencodableAccepted' if leaked is None else 'UnencodableEmitted'
+                break
+            except jr.ProtocolError:
+                pass
+            except Exception as e:   # noqa
+                rec['exc'] = type(e).__name__
+                break
         try:
             rec['lens'].append(len(inforce.response_message(result, kinds[m][1])))
             out = it.send_result(result)
@@ -379,6 +391,7 @@ def evaluate(ctx, cases, res, scope):
             res.count('batch_members_total', len(c['members']))
             res.count('cases_with_limit', c['max'] > 0)
             res.count('cases_with_replacement', 'E@' in got and c['max'] > 0)
+            res.count('cases_with_unencodable_attempt', bool(c.get('unenc')))
             if len(c['order']) >= 2:
                 res.nontrivial(line + '|' + c['proto'])
         else:
@@ -506,9 +519,11 @@ def random_case(rng, jr):
     order = list(reqs)
     rng.shuffle(order)
     errs = [m for m in reqs if rng.random() < 0.25]
+    unenc = [m for m in reqs if rng.random() < 0.1]
     lim = list(limits_for(jr, proto, [p if isinstance(p, dict) else {} for p in members], order, errs, True))
     mx = rng.choice(lim + [rng.randint(1, 400)])
-    return {'proto': proto, 'max': mx, 'members': members, 'order': order, 'errs': errs}
+    return {'proto': proto, 'max': mx, 'members': members, 'order': order, 'errs': errs,
+            'unenc': unenc}
 
 
 def parse_corpus_line(line):
